@@ -20,7 +20,8 @@ RULE = ("pairs (Y, X) of code vectors run through the real mutual_info_estimator
         "both argument orders, groups > 32 768 rows, distinct(X)*distinct(Y) > 2^31, rows*distinct(X) > 2^24) regenerated from "
         "(family, n, seed); non-trivial = both sides take >= 2 values and Y != X; distinct = distinct (Y, X, flag)")
 THEOREMS = ["C01_plugin", "C01_symm", "C01_symm_spec", "C01_nonneg", "C01_const_l", "C01_const_r", "C01_le_min",
-            "C01_self", "C01_chain"]
+            "C01_self", "C01_chain", "C01_score_nonneg", "C01_score_const_l", "C01_score_const_r", "C01_score_le_min",
+            "C01_score_self"]
 MODEL_TARGETS = ["MI/Model.vo"]
 HEADER = ("From Coq Require Import List ZArith.\nFrom Outrank Require Import MI.Model.\n"
           "Import ListNotations.\nOpen Scope Z_scope.")
@@ -274,6 +275,34 @@ def gen_self_pairs(rng, flag, per_family=2):
         q = _recode_sparse(rng, p)
         out.append({"Y": q, "X": list(q), "flag": flag, "fam": "self-of-alldistinct"})
         out.append({"Y": [7] * n, "X": [7] * n, "flag": flag, "fam": "self-of-constant"})
+    return out
+
+
+def xcheck_cases(rng, flag, count):
+    """n = 3000 with >= 1500 distinct values on both sides, evaluated in Coq (~7 s each): the largest size at which the Python
+    transcriptions py_terms / np_terms are held to the Coq model on every run (above it the expected values of the SCALE and
+    supporting families come from the transcriptions only)."""
+    out = []
+    n = 3000
+    for j in range(count):
+        kind = ["uniform", "singletons", "sparse", "dependent"][j % 4]
+        while True:
+            if kind == "uniform":
+                Y = [rng.randrange(2600) for _ in range(n)]
+                X = [rng.randrange(2600) for _ in range(n)]
+            elif kind == "singletons":             # X: ~1900 singleton strata among ~2100 values, a few big strata at scattered codes
+                X = list(range(1900)) + [2000 + rng.randrange(200) for _ in range(n - 1900)]
+                rng.shuffle(X)
+                Y = [rng.randrange(2600) for _ in range(n)]
+            elif kind == "sparse":
+                Y = _recode_sparse(rng, [rng.randrange(2600) for _ in range(n)])
+                X = _recode_sparse(rng, [rng.randrange(2600) for _ in range(n)])
+            else:                                  # Y a noisy function of X, both high-cardinality
+                X = [rng.randrange(2600) for _ in range(n)]
+                Y = [(x * 7 + 3) % 2600 if rng.random() < 0.6 else rng.randrange(2600) for x in X]
+            if len(set(Y)) >= 1500 and len(set(X)) >= 1500:
+                break
+        out.append({"Y": Y, "X": X, "flag": flag, "fam": "xcheck-3000-" + kind})
     return out
 
 
@@ -690,8 +719,10 @@ def np_terms_crosscheck(run, small_cases, small_terms, small_ct):
     for c, t, ct in zip(small_cases, small_terms, small_ct):
         if compress(t) != ct and bad is None:
             bad = {"case": canon(c), "coq_compressed": compress(t), "np_terms": ct}
-    run.oblige("mirror:np_terms (numpy transcription used for the SCALE families) = compressed Coq terms on %d small cases of this run"
-               % len(small_cases), bad is None, json.dumps(bad)[:400] if bad else "")
+    nbig = sum(1 for c in small_cases if len(c["Y"]) >= 3000)
+    run.oblige("mirror:np_terms (numpy transcription used for the SCALE families) = compressed Coq terms on %d cases of this run "
+               "(%d of them n = 3000 with >= 1500 distinct values per side)" % (len(small_cases), nbig), bad is None,
+               json.dumps(bad)[:400] if bad else "")
     if bad:
         run.violation("broken-obligation", "mirror-consistency(np_terms)", found_input=False, extra=bad)
 
@@ -734,6 +765,10 @@ def scale_family(run, pid, specs, small_cases, small_terms, clause):
 def pick_small(cases, results, limit=150):
     sc, stt = [], []
     for c, (_, _, t) in zip(cases, results):
+        if str(c.get("fam", "")).startswith("xcheck-3000"):        # the big cross-check cases always take part
+            sc.append(c)
+            stt.append(t)
+    for c, (_, _, t) in zip(cases, results):
         if len(c["Y"]) <= 400 and len(sc) < limit:
             sc.append(c)
             stt.append(t)
@@ -762,6 +797,7 @@ def check(run, replay):
         for c in base[::4]:
             cases.append({"Y": c["X"], "X": c["Y"], "flag": False, "fam": c["fam"] + "-swapped"})
         cases += gen_self_pairs(run.rng, False, per_family=1)
+        cases += xcheck_cases(run.rng, False, 3 if run.tier == "quick" else 8)
         if run.tier == "thorough":
             cases += exhaustive_pairs(False)
     results = run_cases("C01", cases)
@@ -796,4 +832,6 @@ def check(run, replay):
         "their expected term structures (the Coq model is quadratic); np_terms is compared with the Coq terms on the small cases of "
         "every run",
         "numba/LLVM code generation, fastmath, float32/float64 arithmetic: modelled by the tolerance, not verified",
+        "above n ~ 3000 (SCALE families, long pairs, planted family) the expected values come from the Python transcriptions "
+        "py_terms / np_terms only; they are held to the Coq model on every run up to n = 3000 with >= 1500 distinct values per side",
     ]
